@@ -32,7 +32,7 @@ ASSUMPTIONS = [
     "while a before-Deferred is unfired, and all of them have run by the time the last Deferred firing returns",
 ]
 MIN = {"quick": {"evaluations": 480000, "nontrivial": 480000, "outcomes": 17},
-       "thorough": {"evaluations": 9300000, "nontrivial": 9300000, "outcomes": 15}}
+       "thorough": {"evaluations": 11800000, "nontrivial": 11800000, "outcomes": 18}}
 
 PHASES = ("before", "during", "after")
 KINDS = {"before": ("none", "raise", "defer", "fired", "failed"), "during": ("none", "raise", "defer"),
